@@ -86,6 +86,10 @@ pub enum Policy {
     NewestFirst,
     /// the given worker ordinal (0 = first spawned worker of each frame; 255 = the spawner) runs only when nothing else can
     Starve(u8),
+    /// "progress, then late workers first": the spawner runs until it reaches its first lag, then the workers run
+    /// for the given number of steps (so that the spawner sees progress and hands grown chunks to later workers),
+    /// then the spawner continues, and from then on the most recently spawned runnable worker goes first
+    GrowLate(u8),
 }
 
 impl Policy {
@@ -98,6 +102,7 @@ impl Policy {
             Policy::SpawnerLast => "spawnerlast".into(),
             Policy::NewestFirst => "newestfirst".into(),
             Policy::Starve(k) => format!("starve{}", k),
+            Policy::GrowLate(k) => format!("growlate{}", k),
         }
     }
     pub fn decode(s: &str) -> Option<Policy> {
@@ -113,6 +118,8 @@ impl Policy {
                     Policy::Pct(x.parse().ok()?)
                 } else if let Some(x) = s.strip_prefix("starve") {
                     Policy::Starve(x.parse().ok()?)
+                } else if let Some(x) = s.strip_prefix("growlate") {
+                    Policy::GrowLate(x.parse().ok()?)
                 } else {
                     return None;
                 }
@@ -218,6 +225,8 @@ struct State {
     abort: Option<String>,
     pct_points: Vec<u64>,
     since_starved: u64,
+    /// GrowLate: steps the workers have run since the spawner reached a lag
+    grow_steps: u64,
     quiet_ctr: u64,
     /// slots that found a lock of a dependency taken and yielded: not eligible until another slot has made a step
     spinning: Vec<bool>,
@@ -241,6 +250,7 @@ impl State {
             abort: None,
             pct_points: vec![],
             since_starved: 0,
+            grow_steps: 0,
             quiet_ctr: 0,
             spinning: vec![],
         }
@@ -449,6 +459,28 @@ fn policy_choice(st: &mut State, me: usize, r: &[usize]) -> usize {
                 0
             } else {
                 *r.iter().max().unwrap()
+            }
+        }
+        Policy::GrowLate(k) => {
+            // where is the spawner? look at its last decision point in the log
+            let last_sp = st.log.iter().rev().find(|e| e.slot == 0 && e.kind == Kind::Sp).map(|e| e.stage);
+            let at_lag = last_sp == Some(SpawnerPoint::BeforeLag as u16);
+            let workers: Vec<usize> = r.iter().copied().filter(|s| *s != 0).collect();
+            if at_lag && !workers.is_empty() && st.grow_steps < k as u64 {
+                // the spawner waits in its lag while the workers make progress
+                st.grow_steps += 1;
+                if workers.contains(&me) && st.rng.chance(70, 100) {
+                    me
+                } else {
+                    workers[st.rng.below(workers.len())]
+                }
+            } else if r.contains(&0) {
+                if !at_lag {
+                    st.grow_steps = 0;
+                }
+                0
+            } else {
+                *workers.iter().max().unwrap_or(&r[0])
             }
         }
         Policy::Starve(k) => {
